@@ -60,6 +60,23 @@ class Workspace(object):
             self._bison_done = True
         return os.path.join(self.dir, "sgramm.c")
 
+    def macros(self):
+        """object-like macros of yaep.h with integer values (clang -E -dM)"""
+        if not hasattr(self, "_macros"):
+            out = _run(["clang-14", "-std=gnu90", "-E", "-dM", "-I" + self.src, os.path.join(self.src, "yaep.h")])
+            mm = {}
+            for l in out.splitlines():
+                p = l.split(None, 2)
+                if len(p) == 3 and p[0] == "#define":
+                    v = p[2].strip()
+                    try:
+                        mm[p[1]] = int(v, 0)
+                    except ValueError:
+                        if v == "INT_MAX" or v == "__INT_MAX__":
+                            mm[p[1]] = 2147483647
+            self._macros = mm
+        return self._macros
+
     def compile_unit(self, path, out, defs, extra=()):
         cxx = path.endswith(".cpp") or path.endswith(".cc")
         cc = ["clang++-14", "-std=gnu++11"] if cxx else ["clang-14", "-std=gnu90"]
